@@ -2,7 +2,7 @@
   Driver.Codec — line protocol helpers: TAB-separated fields, `\t \n \r \\` escaped;
   elements as one field with U+001F between name / key / value items.
 -/
-import Svgdx.Geom.Resolve
+import Svgdx.Geom.Connector
 namespace Driver
 open Svgdx
 
